@@ -70,6 +70,8 @@ structure Inst where
   base : Nat := 0
   /-- constructed over the instrumented sample type of the harness (C19) -/
   tracked : Bool := false
+  /-- what the implementation printed for its configuration the last time it was asked (kept across a reset) -/
+  lastCfg : Option String := none
 
 /-- first stage of a source pipe: an adapter tree, or a scripted source that may answer `none` (an end marker) and
 later items again (not fused) — the pipe must poll it on every pull and add no state of its own -/
@@ -471,11 +473,17 @@ def stepFilterOp (d : DState) (op : String) (toks impl : List String) : Option (
   | ["cfg", id] => do
     let id ← id.toNat?
     let inst ← d.get id
-    some (report d op { model := cfgString inst.st.config, impl := implS, kind := kindName inst.st })
+    -- C12 "the configuration itself is unchanged": against what the implementation printed before (a configuration
+    -- that differs from the model's is the business of the property about that filter, not of C12)
+    let cl : List Clause := match inst.lastCfg with
+      | some before => [{ name := "C12.config-unchanged", ok := before == implS, expected := before }]
+      | none => []
+    let d := d.put id { inst with lastCfg := some implS }
+    some (report d op { model := cfgString inst.st.config, impl := implS, kind := kindName inst.st, clauses := cl })
   | ["reset", id] => do
     let id ← id.toNat?
     let inst ← d.get id
-    let d := (d.put id { st := inst.st.reset, hist := [], last := none, tracked := inst.tracked }).flag "reset"
+    let d := (d.put id { st := inst.st.reset, hist := [], last := none, tracked := inst.tracked, lastCfg := inst.lastCfg }).flag "reset"
     some (report d op { model := "ok", impl := implS })
   | ["clone", id, nid] => do
     let inst ← d.get (← id.toNat?)
